@@ -732,3 +732,93 @@ Proof.
         rewrite ed_take_all by (rewrite len_app; lia).
         rewrite ed_bwrite_front by lia. f_equal. f_equal. apply Hres. lia.
 Qed.
+
+(* ---- all edits, edit lists ---- *)
+
+Definition ed_pwf (q : pdu) : Prop := ed_mwf (p_msg q) /\ 0 <= p_max q.
+
+Theorem ed_b_apply_refines q e :
+  ed_pwf q -> ed_op_ok e ->
+  ed_b_apply (ed_of_pdu q) e = Some (fst (ed_apply q e), ed_of_pdu (snd (ed_apply q e))).
+Proof.
+  intros [W Hm] He. destruct e as [n v|n v|n|t]; cbn [ed_b_apply ed_apply ed_op_ok] in *.
+  - apply ed_b_insert_refines; tauto.
+  - apply ed_b_update_refines; tauto.
+  - apply ed_b_remove_refines; [assumption|lia].
+  - apply ed_b_token_refines; assumption.
+Qed.
+
+Theorem ed_pwf_apply q e : ed_pwf q -> ed_op_ok e -> ed_pwf (snd (ed_apply q e)).
+Proof.
+  intros [W Hm] He. split; [apply ed_mwf_apply; assumption|].
+  pose proof (ed_apply_keeps q e) as K. cbv zeta in K. destruct K as (_ & _ & _ & _ & K & _).
+  rewrite K. assumption.
+Qed.
+
+Theorem ed_b_run_refines es : forall q,
+  ed_pwf q -> Forall ed_op_ok es ->
+  ed_b_run (ed_of_pdu q) es = Some (fst (ed_run q es), ed_of_pdu (snd (ed_run q es))).
+Proof.
+  induction es as [|e tl IH]; intros q W Hes; [reflexivity|].
+  inversion Hes as [|? ? He Htl]; subst. cbn [ed_b_run ed_run].
+  rewrite (ed_b_apply_refines q e W He). cbn [fst snd].
+  pose proof (ed_pwf_apply q e W He) as W1.
+  destruct (ed_apply q e) as [r q1]. cbn [fst snd] in *.
+  rewrite (IH q1 W1 Htl). destruct (ed_run q1 tl) as [rs q2]. reflexivity.
+Qed.
+
+Theorem ed_pwf_run es : forall q,
+  ed_pwf q -> Forall ed_op_ok es -> ed_pwf (snd (ed_run q es)).
+Proof.
+  induction es as [|e tl IH]; intros q W Hes; [assumption|].
+  inversion Hes as [|? ? He Htl]; subst. cbn [ed_run].
+  pose proof (ed_pwf_apply q e W He) as W1.
+  destruct (ed_apply q e) as [r q1]. cbn [snd] in W1.
+  specialize (IH q1 W1 Htl). destruct (ed_run q1 tl) as [rs q2]. exact IH.
+Qed.
+
+(* ---- the accessors read the abstract message back ---- *)
+
+Lemma ed_b_tok_of_pdu q :
+  len (m_token (p_msg q)) <= 65804 -> ed_b_tok (ed_of_pdu q) = m_token (p_msg q).
+Proof.
+  intros H. unfold ed_b_tok. cbn [ed_of_pdu ed_of_msg eb_tlen eb_buf].
+  set (t := m_token (p_msg q)) in *. pose proof (len_nonneg t).
+  unfold token_area, ed_bias.
+  destruct (len t <? 13) eqn:E1.
+  - rewrite ed_drop_0. apply take_app_exact.
+  - destruct (len t <? 269) eqn:E2.
+    + cbn [app]. change (drop 1 (len t - 13 :: t ++ content_area (p_msg q)))
+        with (t ++ content_area (p_msg q)). apply take_app_exact.
+    + unfold be16. cbn [app].
+      change (drop 2 (((len t - 269) / 256) mod 256 :: (len t - 269) mod 256 :: t ++ content_area (p_msg q)))
+        with (t ++ content_area (p_msg q)). apply take_app_exact.
+Qed.
+
+Lemma ed_b_payload_of_pdu q : ed_b_payload (ed_of_pdu q) = m_payload (p_msg q).
+Proof.
+  unfold ed_b_payload. pose proof (ed_shift_data_of_pdu q 0) as H.
+  unfold ed_shift_data in H. destruct (eb_data (ed_of_pdu q) =? 0) eqn:E.
+  - destruct (m_payload (p_msg q)) as [|x xs] eqn:Ep; [reflexivity|].
+    cbn [ed_of_pdu ed_of_msg eb_data eb_buf] in E. rewrite Ep in E.
+    rewrite len_app in E. unfold content_area in E. rewrite Ep in E. cbn [payload_area] in E.
+    rewrite len_app, len_cons in E.
+    pose proof (len_nonneg (token_area (m_token (p_msg q)))).
+    pose proof (len_nonneg (opts_enc 0 (m_opts (p_msg q)))). lia.
+  - destruct (m_payload (p_msg q)) as [|x xs] eqn:Ep.
+    + cbn [ed_of_pdu ed_of_msg eb_data] in E. rewrite Ep in E. discriminate.
+    + replace (eb_data (ed_of_pdu q)) with (eb_data (ed_of_pdu q) + 0) by lia. rewrite H.
+      rewrite ed_buf_of_pdu, Ep. cbn [payload_area].
+      set (A := token_area (m_token (p_msg q)) ++ opts_enc 0 (m_opts (p_msg q)) ++ [PAYLOAD_START]).
+      replace (token_area (m_token (p_msg q)) ++ opts_enc 0 (m_opts (p_msg q)) ++ PAYLOAD_START :: x :: xs)
+        with (A ++ x :: xs) by (subst A; rewrite <- !app_assoc; reflexivity).
+      rewrite len_app. replace (len A + len (x :: xs) + 0 - len (x :: xs)) with (len A) by lia.
+      apply drop_app_exact.
+Qed.
+
+Theorem ed_abs_of_pdu q : ed_mwf (p_msg q) -> ed_abs (ed_of_pdu q) = Some (p_msg q).
+Proof.
+  intros W. unfold ed_abs. rewrite ed_b_opts_of_pdu by assumption.
+  rewrite ed_b_tok_of_pdu by (destruct W; assumption). rewrite ed_b_payload_of_pdu.
+  destruct q as [[ty co mi tk os pl] mx]. reflexivity.
+Qed.
